@@ -9,13 +9,17 @@ namespace Receptor.Work
 /-- **Tie (translator)**: `processSignature` (decision by work type / signwork flag, skip only
 for the Unix socket, unexpected tokens refused) and, in every gated arm of `ControlFunc`, the
 call to it before the effect; `VerifySignature` refuses an empty token and an unset key and
-checks validity and audience. -/
+checks validity and audience, calls nothing else (no memory of earlier verdicts) and accepts in one place
+only; the gate and the allocation look the work type up under the name exactly as given. -/
 theorem C15_facts :
     Receptor.Facts.sig_gate = "!shouldVerifySignature && signature != \"\":refuse;shouldVerifySignature && !connIsUnix:VerifySignature"
     ∧ Receptor.Facts.sig_should = "remote:signWork;ok && wt.verifySignature"
     ∧ Receptor.Facts.sig_unix = "addr.Network() == \"unix\""
     ∧ Receptor.Facts.sig_arms = "submit:gate<AllocateUnit,AllocateRemoteUnit;cancel,release,force-release:findUnit<gate<Cancel,Release;results:findUnit<gate<GetResults"
-    ∧ Receptor.Facts.sig_verify = "empty;nokey;ParseWithClaims;!token.Valid;VerifyAudience(w.nc.NodeID(), true)" := by decide +kernel
+    ∧ Receptor.Facts.sig_verify = "empty;nokey;ParseWithClaims;!token.Valid;VerifyAudience(w.nc.NodeID(), true)"
+    ∧ Receptor.Facts.sig_verify_calls = "certificates.LoadPublicKey;jwt.ParseWithClaims;claims.VerifyAudience;w.nc.NodeID;accepting-returns:1"
+    ∧ Receptor.Facts.sig_type_lookup = "ShouldVerifySignature:w.workTypes[workType],param-unmodified;AllocateUnit:w.workTypes[workTypeName],param-unmodified" := by
+  decide +kernel
 
 /-- **effect_requires_token.** For a verifying work type, over anything but the local Unix
 socket, a submit / cancel / release / force-release / results command takes effect only with a
